@@ -247,7 +247,7 @@ func sliceStep(v any, start, stop, step int) any {
 				s = s[sz:]
 				b.WriteRune(r)
 
-				for j := 1; j < step; j++ {
+				for j := 1; j < step && len(s) > 0; j++ {
 					_, sz = utf8.DecodeRuneInString(s)
 					s = s[sz:]
 				}
@@ -263,7 +263,7 @@ func sliceStep(v any, start, stop, step int) any {
 				s = s[:len(s)-sz]
 				b.WriteRune(r)
 
-				for j := -1; j > step; j-- {
+				for j := -1; j > step && len(s) > 0; j-- {
 					_, sz = utf8.DecodeLastRuneInString(s)
 					s = s[:len(s)-sz]
 				}
